@@ -204,7 +204,8 @@ func verifYSelfTest(jt, yt string, jtree, ytree any) {
 var verifYFloats = []struct {
 	text string
 	f    float64
-}{{"1.5", 1.5}, {"0.1", 0.1}, {"2.0", 2}, {"1e2", 100}, {"-0.5", -0.5}}
+}{{"1.5", 1.5}, {"0.1", 0.1}, {"2.0", 2}, {"1e2", 100}, {"-0.5", -0.5},
+	{"0.123456789", 0.123456789}, {"1234567.891", 1234567.891}} // the last two need float64 precision
 
 var verifYBigs = []struct {
 	text string
@@ -524,7 +525,7 @@ func Verif_C05_jsonyaml() {
 
 // the flat struct of the statement with every field well-typed: all symbolic
 func verifYFlatCase() {
-	i := verifPIntNum("i", verifParam("digits"), true)
+	i := verifPIntNum("i", verifParam("fdigits"), true)
 	verifYCanon(i)
 	u := verifPFixedNum("u", 1)
 	s := verifPStr("s", 2)
